@@ -20,11 +20,19 @@ class ImplRaised(Exception):
 _POOL = None
 
 
+_SAME_IDS = False
+_POOL_N = 0
+
+
 def pool(active):
     """start a new iteration of a monitor: when active, all calls of this iteration that would construct a fresh model
-    for the same (kind, parameters) go through ONE model object instead (nothing may be remembered between calls)"""
-    global _POOL
+    for the same (kind, parameters) go through ONE model object instead (nothing may be remembered between calls);
+    every seventh pooled iteration all ratings built from plain numbers carry ONE id (stored states of one player / colliding
+    user-assigned ids: nothing may be keyed by id)"""
+    global _POOL, _SAME_IDS, _POOL_N
     _POOL = {} if active else None
+    _POOL_N += 1
+    _SAME_IDS = bool(active) and _POOL_N % 7 == 0      # 7: coprime with the 5 kinds and the on/off alternation
 
 
 def _model_for(kind, st):
@@ -48,7 +56,7 @@ def teams_val(kind, nums, ids=None, names=None):
         team = []
         for mu, sg in t:
             c += 1
-            team.append(("R", kind, mu, sg, (ids[c - 1] if ids else 10_000_000 + c), (names[c - 1] if names else None)))
+            team.append(("R", kind, mu, sg, (ids[c - 1] if ids else (7 if _SAME_IDS else 10_000_000 + c)), (names[c - 1] if names else None)))
         out.append(("L", team))
     return ("L", out)
 
